@@ -320,6 +320,28 @@ def r1(ctx: Ctx) -> None:
                 if len(rs) == 1:
                     return eval3(rs[0], _atom)
                 return None
+            if isinstance(x, ast.Call) and not isinstance(x.func, ast.Name) or (isinstance(x, ast.Call) and isinstance(x.func, ast.Name)
+                                                                                 and x.func.id not in mut.nested and x.func.id not in ("any", "all", "len")):
+                # a predicate of the package (`Transaction._is_expired(s, cutoff_ms, current_id)`): its single return expression,
+                # with the arguments put in place of the parameters
+                try:
+                    cal = ctx.prog.resolve_call(x, mut)
+                except Exception:
+                    cal = None
+                if cal is not None and cal.kind == "func" and len(cal.funcs) == 1 and not isinstance(cal.funcs[0].node, ast.Lambda) and not x.keywords:
+                    t_ = cal.funcs[0]
+                    rs = [r.value for r in ast.walk(t_.node) if isinstance(r, ast.Return) and r.value is not None]
+                    pn = [p_.name for p_ in t_.params if not (t_.cls is not None and not t_.is_static and p_ is t_.params[0])]
+                    if len(rs) == 1 and len(pn) == len(x.args):
+                        import copy as _copy
+                        env_ = dict(zip(pn, x.args))
+
+                        class _S(ast.NodeTransformer):
+                            def visit_Name(s_, y):  # type: ignore[no-untyped-def]  # noqa: N805
+                                if isinstance(y.ctx, ast.Load) and y.id in env_:
+                                    return _copy.deepcopy(env_[y.id])
+                                return y
+                        return eval3(_S().visit(_copy.deepcopy(rs[0])), _atom)
             if isinstance(x, ast.Compare) and len(x.ops) == 1 and isinstance(x.ops[0], (ast.Eq, ast.NotEq)):
                 a, b = x.left, x.comparators[0]
                 if (_is_cur(a) and isinstance(b, ast.Attribute) and b.attr == "snapshot_id") or \
@@ -409,6 +431,33 @@ def r1(ctx: Ctx) -> None:
                 adds.append(n)
     app = adds
     ok = bool(adds)
+    algebra = False
+    if not adds:
+        # set-algebra form: `kept_ids = newest_ids | ({current_id} & all_ids)` - the filter set is DEFINED as a union with the
+        # current id (unconditionally; the intersection only drops an id that names no snapshot at all)
+        for n in g.nodes:
+            if n.kind == "stmt" and isinstance(n.ast, ast.Assign) and len(n.ast.targets) == 1 and isinstance(n.ast.targets[0], ast.Name) \
+                    and n.ast.targets[0].id in idsets and n.id in g.reachable():
+                v = n.ast.value
+                terms = []
+                stack = [v]
+                while stack:
+                    y = stack.pop()
+                    if isinstance(y, ast.BinOp) and isinstance(y.op, ast.BitOr):
+                        stack += [y.left, y.right]
+                    elif isinstance(y, ast.Call) and isinstance(y.func, ast.Attribute) and y.func.attr == "union":
+                        stack += [y.func.value] + list(y.args)
+                    else:
+                        terms.append(y)
+                for t_ in terms:
+                    core = t_
+                    while isinstance(core, ast.BinOp) and isinstance(core.op, ast.BitAnd):
+                        core = core.left if isinstance(core.left, ast.Set) else core.right
+                    if isinstance(core, ast.Set) and len(core.elts) == 1 and any(
+                            nm.endswith("current_snapshot_id") for nm in rsl.origins(core.elts[0], n.id)["names"] | {norm_text(core.elts[0])}):
+                        algebra = True
+                        app = [n]
+        ok = algebra
     # ... and it is re-added WHENEVER it is missing: the path condition of the add consists only of "there is a current snapshot"
     # and "it is not among the kept ones" (a negated / weakened guard re-adds it when it is already there and drops it otherwise)
     bad_guards = []
@@ -460,7 +509,7 @@ def r1(ctx: Ctx) -> None:
                 return l_ == ("true" if v_ else "false")
         return True
 
-    if adds and rem:
+    if adds and rem and not algebra:
         w_ = find_path(g, g.entry, [r.id for r in rem], avoid=[a_.id for a_ in adds], labels=NORMAL, edge_ok=_edge_ok)
         if w_ is not None:
             bad_guards.append("a path on which the current snapshot exists and is missing from the kept set reaches the removal "
